@@ -59,14 +59,22 @@ Proof. intros L H. destruct (ctl d) as [f|] eqn:E; [|reflexivity]. destruct (l_c
 Lemma d_finish_linv f d : linv d -> ctl d = None -> staged d = true -> linv (d_finish f d).
 Proof.
   intros L Hc Hs. unfold d_finish. destruct (is_run (cstate d)) eqn:R.
-  - apply is_run_spec in R as [_ Rn].
-    constructor; cbn; intros; try congruence; auto.
-    + destruct (l_ctl d L f0 H) as [_ X]. split; [reflexivity|exact X].
-    + exact (l_active d L H).
+  - constructor; cbn.
+    + intros H. congruence.
+    + intros g H. congruence.
+    + intros _ H. discriminate.
+    + intros _. reflexivity.
+    + intros H. exact (l_active d L H).
+    + intros r _ H. discriminate.
   - assert (Ex : exists r, e d = Exited r).
     { unfold cstate in R. rewrite Hc in R. destruct (e d) eqn:E; cbn in R; try discriminate. eauto. }
-    constructor; cbn; intros; try congruence; auto.
-    exact (l_active d L H).
+    constructor; cbn.
+    + intros H. congruence.
+    + intros g _. split; [reflexivity|exact Ex].
+    + intros _ H. discriminate.
+    + intros _. reflexivity.
+    + intros H. exact (l_active d L H).
+    + intros r _ H. discriminate.
 Qed.
 
 Lemma d_finish_ctl f d : ctl d = None -> (ctl (d_finish f d) = None \/ ctl (d_finish f d) = Some f).
@@ -85,7 +93,13 @@ Lemma fake_linv f d : linv d -> staged d = false -> linv (d_finish f (d_stage d)
 Proof.
   intros L Hs. destruct (l_unstaged d L Hs) as [He [Hc [Hr Hf]]].
   unfold d_finish, d_stage, cstate. cbn. rewrite Hc, He. cbn.
-  constructor; cbn; intros; try congruence; auto; try discriminate.
+  constructor; cbn.
+  - intros H. discriminate.
+  - intros g H. congruence.
+  - intros _ H. discriminate.
+  - intros _. reflexivity.
+  - intros H. congruence.
+  - intros r H. congruence.
 Qed.
 
 Lemma fake_cstate f d : linv d -> staged d = false -> cstate (d_finish f (d_stage d)) = cstate d /\ cstate d = CRun.
@@ -99,6 +113,757 @@ Lemma launch_linv d : linv d -> staged d = false -> linv (d_launch (d_stage d)) 
 Proof.
   intros L Hs. destruct (l_unstaged d L Hs) as [He [Hc [Hr Hf]]].
   unfold d_launch, d_stage, cstate. cbn. rewrite Hc, He. cbn. split; [|lia].
-  constructor; cbn; intros; try congruence; try lia; try discriminate.
-  - exact (l_kill d L H).
+  constructor; cbn.
+  - intros H. discriminate.
+  - intros g H. congruence.
+  - intros _ _. lia.
+  - intros H. exact (l_kill d L H).
+  - intros _. lia.
+  - intros r H. discriminate.
 Qed.
+
+(* ------------------------------------------------------------------ global invariant and monotone extension *)
+Definition Inv (s : state) : Prop :=
+  (forall c, linv (dy s c)) /\
+  (forall c, In c (done s) -> is_fin (pstate s c) = true) /\
+  (forall c, In c (finq s) -> is_fin (pstate s c) = true).
+
+Record ext (s s' : state) : Prop := {
+  x_ctl : forall c f, ctl (dy s c) = Some f -> ctl (dy s' c) = Some f;
+  x_staged : forall c, staged (dy s c) = true -> staged (dy s' c) = true;
+  x_fc : forall c, finish_called (dy s c) = true -> finish_called (dy s' c) = true;
+  x_done : forall c, In c (done s) -> In c (done s');
+  x_runs : forall c, runs (dy s c) <= runs (dy s' c)
+}.
+
+Lemma ext_refl s : ext s s.
+Proof. constructor; auto. Qed.
+
+Lemma ext_trans a b c : ext a b -> ext b c -> ext a c.
+Proof.
+  intros [A1 A2 A3 A4 A5] [B1 B2 B3 B4 B5]. constructor; auto.
+  intros x. specialize (A5 x). specialize (B5 x). lia.
+Qed.
+
+(* the fields no component-level operation touches *)
+Definition core (s : state) := (done s, stop s, cur s, pmq s, running s, verdict s).
+
+Lemma Inv_state0 : Inv state0.
+Proof. split; [intros c; exact linv_dyn0|split; intros c H; destruct H]. Qed.
+
+Lemma is_fin_stable s s' c : ext s s' -> is_fin (pstate s c) = true -> is_fin (pstate s' c) = true.
+Proof.
+  intros X H. unfold pstate in *. apply is_fin_ctl in H as [f H]. apply is_fin_ctl. exists f. exact (x_ctl _ _ X c f H).
+Qed.
+
+(* ---- finish *)
+Lemma finish_ok s c f :
+  Inv s -> ctl (dy s c) = None -> staged (dy s c) = true ->
+  Inv (finish s c f) /\ ext s (finish s c f) /\ core (finish s c f) = core s /\
+  (forall x, x <> c -> dy (finish s c f) x = dy s x) /\
+  dy (finish s c f) c = d_finish f (dy s c) /\
+  (forall x, In x (finq s) -> In x (finq (finish s c f))).
+Proof.
+  intros [I1 [I2 I3]] Hc Hs.
+  assert (D : forall x, dy (finish s c f) x = if Nat.eqb x c then d_finish f (dy s c) else dy s x).
+  { intros x. unfold finish. destruct (negb _ && negb _); cbn; reflexivity. }
+  assert (Dc : dy (finish s c f) c = d_finish f (dy s c)) by (rewrite D, Nat.eqb_refl; reflexivity).
+  assert (Do : forall x, x <> c -> dy (finish s c f) x = dy s x).
+  { intros x Hx. rewrite D. apply Nat.eqb_neq in Hx. rewrite Hx. reflexivity. }
+  assert (Core : core (finish s c f) = core s).
+  { unfold finish. destruct (negb _ && negb _); reflexivity. }
+  assert (Fq : forall x, In x (finq (finish s c f)) -> In x (finq s) \/
+                (x = c /\ is_run (cstate (dy s c)) = false)).
+  { intros x. unfold finish. destruct (negb (is_run (cstate (dy s c))) && negb (is_fin (cstate (dy s c)))) eqn:G; cbn.
+    - intros H. apply in_app_or in H as [H|[H|[]]]; [left; exact H|right]. split; [auto|].
+      apply andb_true_iff in G as [G _]. destruct (is_run (cstate (dy s c))); [discriminate|reflexivity].
+    - auto. }
+  assert (Fq2 : forall x, In x (finq s) -> In x (finq (finish s c f))).
+  { intros x H. unfold finish. destruct (negb _ && negb _); cbn; [apply in_or_app; left|]; exact H. }
+  assert (X : ext s (finish s c f)).
+  { constructor.
+    - intros x g H. destruct (Nat.eq_dec x c) as [->|N]; [congruence|rewrite (Do x N); exact H].
+    - intros x H. destruct (Nat.eq_dec x c) as [->|N]; [rewrite Dc; destruct (d_finish_frame f (dy s c)) as [A _]; congruence|rewrite (Do x N); exact H].
+    - intros x H. destruct (Nat.eq_dec x c) as [->|N]; [rewrite Dc; destruct (d_finish_frame f (dy s c)) as [_ [_ [A _]]]; exact A|rewrite (Do x N); exact H].
+    - intros x H. unfold core in Core. congruence.
+    - intros x. destruct (Nat.eq_dec x c) as [->|N]; [rewrite Dc; destruct (d_finish_frame f (dy s c)) as [_ [A _]]; lia|rewrite (Do x N); lia]. }
+  split; [|split; [exact X|split; [exact Core|split; [exact Do|split; [exact Dc|exact Fq2]]]]].
+  split; [|split].
+  - intros x. destruct (Nat.eq_dec x c) as [->|N]; [rewrite Dc; apply d_finish_linv; auto|rewrite (Do x N); apply I1].
+  - intros x H. assert (H' : In x (done s)) by (unfold core in Core; congruence).
+    exact (is_fin_stable s _ x X (I2 x H')).
+  - intros x H. destruct (Fq x H) as [H'|[-> R]].
+    + exact (is_fin_stable s _ x X (I3 x H')).
+    + unfold pstate. rewrite Dc. unfold d_finish. rewrite R. reflexivity.
+Qed.
+
+(* ---- fake finish of a never-staged component *)
+Lemma fake_finish_ok s c f :
+  Inv s -> staged (dy s c) = false ->
+  Inv (fake_finish s c f) /\ ext s (fake_finish s c f) /\ core (fake_finish s c f) = core s /\
+  finq (fake_finish s c f) = finq s /\
+  (forall x, x <> c -> dy (fake_finish s c f) x = dy s x) /\
+  dy (fake_finish s c f) c = d_finish f (d_stage (dy s c)) /\
+  (forall x, pstate (fake_finish s c f) x = pstate s x) /\
+  (forall x, runs (dy (fake_finish s c f) x) = runs (dy s x)).
+Proof.
+  intros [I1 [I2 I3]] Hs.
+  destruct (l_unstaged _ (I1 c) Hs) as [He [Hc [Hr Hf]]].
+  assert (R : is_run (cstate (d_stage (dy s c))) = true).
+  { unfold cstate, d_stage. cbn. rewrite Hc, He. reflexivity. }
+  assert (E : fake_finish s c f = set_dy (set_dy s c (d_stage (dy s c))) c (d_finish f (d_stage (dy s c)))).
+  { unfold fake_finish, finish. cbn. rewrite upd_same, R. cbn. reflexivity. }
+  assert (Dc : dy (fake_finish s c f) c = d_finish f (d_stage (dy s c))).
+  { rewrite E. cbn. apply upd_same. }
+  assert (Do : forall x, x <> c -> dy (fake_finish s c f) x = dy s x).
+  { intros x N. rewrite E. cbn. rewrite !upd_other by exact N. reflexivity. }
+  assert (Core : core (fake_finish s c f) = core s) by (rewrite E; reflexivity).
+  assert (Fq : finq (fake_finish s c f) = finq s) by (rewrite E; reflexivity).
+  destruct (fake_cstate f _ (I1 c) Hs) as [C1 C2].
+  assert (Ps : forall x, pstate (fake_finish s c f) x = pstate s x).
+  { intros x. unfold pstate. destruct (Nat.eq_dec x c) as [->|N]; [rewrite Dc; exact C1|rewrite (Do x N); reflexivity]. }
+  assert (Rn : forall x, runs (dy (fake_finish s c f) x) = runs (dy s x)).
+  { intros x. destruct (Nat.eq_dec x c) as [->|N]; [rewrite Dc|rewrite (Do x N); reflexivity].
+    destruct (d_finish_frame f (d_stage (dy s c))) as [_ [A _]]. rewrite A. reflexivity. }
+  assert (X : ext s (fake_finish s c f)).
+  { constructor.
+    - intros x g H. destruct (Nat.eq_dec x c) as [->|N]; [congruence|rewrite (Do x N); exact H].
+    - intros x H. destruct (Nat.eq_dec x c) as [->|N]; [congruence|rewrite (Do x N); exact H].
+    - intros x H. destruct (Nat.eq_dec x c) as [->|N]; [congruence|rewrite (Do x N); exact H].
+    - intros x H. unfold core in Core. congruence.
+    - intros x. rewrite Rn. lia. }
+  split; [|split; [exact X|split; [exact Core|split; [exact Fq|split; [exact Do|split; [exact Dc|split; [exact Ps|exact Rn]]]]]]].
+  split; [|split].
+  - intros x. destruct (Nat.eq_dec x c) as [->|N]; [rewrite Dc; apply fake_linv; auto|rewrite (Do x N); apply I1].
+  - intros x H. rewrite Ps. apply I2. unfold core in Core. congruence.
+  - intros x H. rewrite Ps. apply I3. congruence.
+Qed.
+
+Lemma NoDup_app_nodup_snoc {A} (l : list A) x : NoDup l -> ~ In x l -> NoDup (l ++ [x]).
+Proof.
+  intros H N. induction H as [|y l Hy H IH]; cbn; [constructor; [intros []|constructor]|].
+  constructor.
+  - intros Hi. apply in_app_or in Hi as [Hi|[Hi|[]]]; [contradiction|]. subst. apply N. left. reflexivity.
+  - apply IH. intros Hi. apply N. right. exact Hi.
+Qed.
+
+Lemma existsb_ext' {A} (f g : A -> bool) l : (forall x, f x = g x) -> existsb f l = existsb g l.
+Proof. intros H. induction l as [|x l IH]; cbn; [reflexivity|]. rewrite H, IH. reflexivity. Qed.
+Lemma forallb_ext' {A} (f g : A -> bool) l : (forall x, f x = g x) -> forallb f l = forallb g l.
+Proof. intros H. induction l as [|x l IH]; cbn; [reflexivity|]. rewrite H, IH. reflexivity. Qed.
+
+(* ------------------------------------------------------------------ one scheduler pass *)
+Section Pass.
+Variable W : list comp.
+
+(* what the scheduler has checked, in terms of the state before the pass *)
+Definition Guard (s : state) (c : nat) : Prop :=
+  (forall p, In p (preds (cmp W c)) ->
+     In p (done s) \/
+     (is_subject W c p = true /\ staged (dy s p) = true /\ finish_called (dy s p) = false)) /\
+  shutdown_rule W s c = false.
+
+Record PassInv (s : state) (si : state) (ready : list nat) : Prop := {
+  p_inv : Inv si;
+  p_ext : ext s si;
+  p_core : core si = core s;
+  p_finq : finq si = finq s;
+  p_pstate : forall x, pstate si x = pstate s x;
+  p_runs : forall x, runs (dy si x) = runs (dy s x);
+  p_sub : forall x, staged (dy si x) = true -> finish_called (dy si x) = false ->
+                    staged (dy s x) = true /\ finish_called (dy s x) = false;
+  p_unst : forall x, staged (dy si x) = false -> dy si x = dy s x;
+  p_ready : forall c, In c ready -> staged (dy si c) = false /\ Guard s c;
+  p_nodup : NoDup ready
+}.
+
+Lemma shutdown_rule_pstate s si c :
+  (forall x, pstate si x = pstate s x) -> shutdown_rule W si c = shutdown_rule W s c.
+Proof.
+  intros H. unfold shutdown_rule.
+  assert (E1 : forall l, existsb (fun p => is_failed (pstate si p)) l = existsb (fun p => is_failed (pstate s p)) l).
+  { intros l. apply existsb_ext'. intros p. rewrite H. reflexivity. }
+  assert (E2 : forall l, existsb (fun p => is_shutdown (pstate si p)) l = existsb (fun p => is_shutdown (pstate s p)) l).
+  { intros l. apply existsb_ext'. intros p. rewrite H. reflexivity. }
+  assert (E3 : forall l, forallb (fun p => is_shutdown (pstate si p)) l = forallb (fun p => is_shutdown (pstate s p)) l).
+  { intros l. apply forallb_ext'. intros p. rewrite H. reflexivity. }
+  rewrite E1, !E2, E3. reflexivity.
+Qed.
+
+Lemma deps_ok_guard s si c :
+  done si = done s ->
+  (forall x, staged (dy si x) = true -> finish_called (dy si x) = false ->
+             staged (dy s x) = true /\ finish_called (dy s x) = false) ->
+  deps_ok W true si c = true ->
+  forall p, In p (preds (cmp W c)) ->
+     In p (done s) \/ (is_subject W c p = true /\ staged (dy s p) = true /\ finish_called (dy s p) = false).
+Proof.
+  intros Hd Hsub H p Hp. unfold deps_ok in H. rewrite forallb_forall in H. specialize (H p Hp).
+  apply orb_true_iff in H as [H|H].
+  - left. apply memn_In in H. rewrite Hd in H. exact H.
+  - right. apply andb_true_iff in H as [H H3]. apply andb_true_iff in H as [H1 H2]. cbn in H3.
+    apply negb_true_iff in H3. destruct (Hsub p H2 H3) as [A B]. auto.
+Qed.
+
+Lemma visit_ok s si ready c :
+  PassInv s si ready -> ~ In c ready ->
+  let '(si', ready') := sched_visit W true (si, ready) c in
+  PassInv s si' ready' /\ (forall x, In x ready' -> In x ready \/ x = c).
+Proof.
+  intros P Hn. unfold sched_visit.
+  destruct (memn c (done si) || is_fin (pstate si c) || staged (dy si c) || negb (deps_ok W true si c)) eqn:G.
+  { split; [exact P|auto]. }
+  apply orb_false_iff in G as [G G4]. apply orb_false_iff in G as [G G3]. apply orb_false_iff in G as [G1 G2].
+  apply negb_false_iff in G4.
+  assert (Gd : forall p, In p (preds (cmp W c)) ->
+     In p (done s) \/ (is_subject W c p = true /\ staged (dy s p) = true /\ finish_called (dy s p) = false)).
+  { apply (deps_ok_guard s si c); [pose proof (p_core _ _ _ P) as C; unfold core in C; congruence|exact (p_sub _ _ _ P)|exact G4]. }
+  destruct (shutdown_rule W si c) eqn:Sr.
+  - (* fake finish *)
+    destruct (fake_finish_ok si c Shutdown (p_inv _ _ _ P) G3) as [I' [X' [C' [F' [Do [Dc [Ps Rn]]]]]]].
+    split; [|auto]. constructor.
+    + exact I'.
+    + exact (ext_trans _ _ _ (p_ext _ _ _ P) X').
+    + rewrite C'. exact (p_core _ _ _ P).
+    + rewrite F'. exact (p_finq _ _ _ P).
+    + intros x. rewrite Ps. exact (p_pstate _ _ _ P x).
+    + intros x. rewrite Rn. exact (p_runs _ _ _ P x).
+    + intros x Hs Hf. destruct (Nat.eq_dec x c) as [->|N].
+      * rewrite Dc in Hf. destruct (d_finish_frame Shutdown (d_stage (dy si c))) as [_ [_ [A _]]]. congruence.
+      * rewrite (Do x N) in Hs, Hf. exact (p_sub _ _ _ P x Hs Hf).
+    + intros x Hs. destruct (Nat.eq_dec x c) as [->|N].
+      * rewrite Dc in Hs. destruct (d_finish_frame Shutdown (d_stage (dy si c))) as [A _]. rewrite A in Hs. discriminate.
+      * rewrite (Do x N) in Hs |- *. exact (p_unst _ _ _ P x Hs).
+    + intros x Hx. assert (N : x <> c) by (intros ->; contradiction).
+      rewrite (Do x N). exact (p_ready _ _ _ P x Hx).
+    + exact (p_nodup _ _ _ P).
+  - (* ready *)
+    split.
+    + constructor; try (destruct P; assumption).
+      * intros x Hx. apply in_app_or in Hx as [Hx|[<-|[]]]; [exact (p_ready _ _ _ P x Hx)|].
+        split; [exact G3|]. split; [exact Gd|].
+        rewrite <- (shutdown_rule_pstate s si c (p_pstate _ _ _ P)). exact Sr.
+      * apply NoDup_app_nodup_snoc; [exact (p_nodup _ _ _ P)|exact Hn].
+    + intros x Hx. apply in_app_or in Hx as [Hx|[<-|[]]]; auto.
+Qed.
+
+Lemma visits_ok s : forall l si ready,
+  PassInv s si ready -> NoDup l -> (forall c, In c ready -> ~ In c l) ->
+  PassInv s (fst (fold_left (sched_visit W true) l (si, ready))) (snd (fold_left (sched_visit W true) l (si, ready))).
+Proof.
+  induction l as [|c l IH]; intros si ready P Hl Hr; cbn [fold_left]; [exact P|].
+  inversion Hl as [|? ? Hc Hl']; subst.
+  assert (Hn : ~ In c ready) by (intros H; apply (Hr c H); left; reflexivity).
+  pose proof (visit_ok s si ready c P Hn) as V.
+  destruct (sched_visit W true (si, ready) c) as [si' ready'] eqn:E. destruct V as [P' Sub].
+  apply IH; [exact P'|exact Hl'|].
+  intros x Hx Hi. destruct (Sub x Hx) as [H|H]; [apply (Hr x H); right; exact Hi|subst x; contradiction].
+Qed.
+
+Lemma PassInv_init s : Inv s -> PassInv s s [].
+Proof.
+  intros I. constructor.
+  - exact I.
+  - apply ext_refl.
+  - reflexivity.
+  - reflexivity.
+  - reflexivity.
+  - reflexivity.
+  - intros x H1 H2. split; assumption.
+  - reflexivity.
+  - intros c H. destruct H.
+  - constructor.
+Qed.
+
+End Pass.
+
+Lemma fold_set_dy (F : dyn -> dyn) : forall l s, NoDup l ->
+  (forall x, dy (fold_left (fun s c => set_dy s c (F (dy s c))) l s) x = if memn x l then F (dy s x) else dy s x) /\
+  core (fold_left (fun s c => set_dy s c (F (dy s c))) l s) = core s /\
+  finq (fold_left (fun s c => set_dy s c (F (dy s c))) l s) = finq s.
+Proof.
+  induction l as [|c l IH]; intros s Hl; cbn [fold_left]; [split; [reflexivity|split; reflexivity]|].
+  inversion Hl as [|? ? Hc Hl']; subst.
+  destruct (IH (set_dy s c (F (dy s c))) Hl') as [A [B C]]. split; [|split; [rewrite B; reflexivity|rewrite C; reflexivity]].
+  intros x. rewrite A. cbn [memn existsb]. fold (memn x l). cbn [set_dy dy].
+  destruct (Nat.eq_dec x c) as [->|N].
+  - rewrite Nat.eqb_refl. cbn. rewrite upd_same.
+    destruct (memn c l) eqn:M; [apply memn_In in M; contradiction|reflexivity].
+  - rewrite upd_other by exact N. apply Nat.eqb_neq in N. rewrite N. reflexivity.
+Qed.
+
+Lemma submit_spec s ready : NoDup ready ->
+  (forall x, dy (submit s ready) x = if memn x ready then d_launch (d_stage (dy s x)) else dy s x) /\
+  core (submit s ready) = core s /\ finq (submit s ready) = finq s.
+Proof.
+  intros Hn. unfold submit.
+  destruct (fold_set_dy d_stage ready s Hn) as [A1 [B1 C1]].
+  destruct (fold_set_dy d_launch ready (fold_left (fun s c => set_dy s c (d_stage (dy s c))) ready s) Hn) as [A2 [B2 C2]].
+  split; [|split; [rewrite B2, B1; reflexivity|rewrite C2, C1; reflexivity]].
+  intros x. rewrite A2, A1. destruct (memn x ready); reflexivity.
+Qed.
+
+(* the whole pass *)
+Lemma sched_pass_ok W s :
+  Inv s ->
+  Inv (sched_pass W true s) /\ ext s (sched_pass W true s) /\ core (sched_pass W true s) = core s /\
+  finq (sched_pass W true s) = finq s /\
+  (forall x, pstate (sched_pass W true s) x = pstate s x) /\
+  (forall c, runs (dy s c) = 0 -> 0 < runs (dy (sched_pass W true s) c) ->
+             stop s = false /\ staged (dy s c) = false /\ Guard W s c).
+Proof.
+  intros I. unfold sched_pass.
+  pose proof (visits_ok W s (nodes W) s [] (PassInv_init W s I) (seq_NoDup _ _) (fun c H => match H with end)) as P.
+  destruct (fold_left (sched_visit W true) (nodes W) (s, [])) as [s1 ready] eqn:E. cbn [fst snd] in P.
+  assert (St : stop s1 = stop s) by (pose proof (p_core _ _ _ _ P) as C; unfold core in C; congruence).
+  destruct (stop s1) eqn:S1.
+  - split; [exact (p_inv _ _ _ _ P)|]. split; [exact (p_ext _ _ _ _ P)|]. split; [exact (p_core _ _ _ _ P)|].
+    split; [exact (p_finq _ _ _ _ P)|]. split; [exact (p_pstate _ _ _ _ P)|].
+    intros c H0 H1. rewrite (p_runs _ _ _ _ P c) in H1. lia.
+  - destruct (submit_spec s1 ready (p_nodup _ _ _ _ P)) as [D [C F]].
+    pose proof (p_inv _ _ _ _ P) as [I1 [I2 I3]].
+    assert (Dl : forall x, In x ready -> linv (dy (submit s1 ready) x) /\ runs (dy (submit s1 ready) x) = 1 /\
+                  cstate (dy (submit s1 ready) x) = cstate (dy s1 x) /\ staged (dy (submit s1 ready) x) = true /\
+                  finish_called (dy (submit s1 ready) x) = finish_called (dy s1 x) /\ ctl (dy (submit s1 ready) x) = ctl (dy s1 x)).
+    { intros x Hx. rewrite D. apply memn_In in Hx as M. rewrite M.
+      destruct (p_ready _ _ _ _ P x Hx) as [Us _].
+      destruct (launch_linv _ (I1 x) Us) as [L R]. split; [exact L|split; [exact R|]].
+      destruct (l_unstaged _ (I1 x) Us) as [He [Hc [Hr Hf]]].
+      unfold d_launch, d_stage, cstate. cbn. rewrite Hc, He. cbn. auto. }
+    assert (Dn : forall x, ~ In x ready -> dy (submit s1 ready) x = dy s1 x).
+    { intros x Hx. rewrite D. destruct (memn x ready) eqn:M; [apply memn_In in M; contradiction|reflexivity]. }
+    assert (Ps : forall x, pstate (submit s1 ready) x = pstate s1 x).
+    { intros x. unfold pstate. destruct (in_dec Nat.eq_dec x ready) as [Hx|Hx];
+        [destruct (Dl x Hx) as [_ [_ [A _]]]; exact A|rewrite (Dn x Hx); reflexivity]. }
+    assert (X : ext s1 (submit s1 ready)).
+    { constructor.
+      - intros x g H. destruct (in_dec Nat.eq_dec x ready) as [Hx|Hx];
+          [destruct (Dl x Hx) as [_ [_ [_ [_ [_ A]]]]]; congruence|rewrite (Dn x Hx); exact H].
+      - intros x H. destruct (in_dec Nat.eq_dec x ready) as [Hx|Hx];
+          [destruct (Dl x Hx) as [_ [_ [_ [A _]]]]; exact A|rewrite (Dn x Hx); exact H].
+      - intros x H. destruct (in_dec Nat.eq_dec x ready) as [Hx|Hx];
+          [destruct (Dl x Hx) as [_ [_ [_ [_ [A _]]]]]; congruence|rewrite (Dn x Hx); exact H].
+      - intros x H. unfold core in C. congruence.
+      - intros x. destruct (in_dec Nat.eq_dec x ready) as [Hx|Hx].
+        + destruct (Dl x Hx) as [_ [A _]]. rewrite A. destruct (p_ready _ _ _ _ P x Hx) as [Us _].
+          destruct (l_unstaged _ (I1 x) Us) as [_ [_ [Hr _]]]. lia.
+        + rewrite (Dn x Hx). lia. }
+    split; [|split; [exact (ext_trans _ _ _ (p_ext _ _ _ _ P) X)|split; [rewrite C; exact (p_core _ _ _ _ P)|
+             split; [rewrite F; exact (p_finq _ _ _ _ P)|split]]]].
+    + split; [|split].
+      * intros x. destruct (in_dec Nat.eq_dec x ready) as [Hx|Hx]; [exact (proj1 (Dl x Hx))|rewrite (Dn x Hx); apply I1].
+      * intros x H. rewrite Ps. apply I2. unfold core in C. congruence.
+      * intros x H. rewrite Ps. apply I3. congruence.
+    + intros x. rewrite Ps. exact (p_pstate _ _ _ _ P x).
+    + intros c H0 H1. destruct (in_dec Nat.eq_dec c ready) as [Hx|Hx].
+      * destruct (p_ready _ _ _ _ P c Hx) as [Us G]. split; [congruence|]. split; [|exact G].
+        rewrite <- (p_unst _ _ _ _ P c Us). exact Us.
+      * rewrite (Dn c Hx), (p_runs _ _ _ _ P c) in H1. lia.
+Qed.
+
+(* ------------------------------------------------------------------ the other controller actions *)
+Lemma alive_ctl d : alive d = true -> ctl d = None.
+Proof.
+  unfold alive. intros H. apply negb_true_iff in H. destruct (ctl d) as [f|] eqn:E; [|reflexivity].
+  assert (X : is_fin (cstate d) = true) by (apply is_fin_ctl; eauto). congruence.
+Qed.
+
+Lemma stop_components_ok : forall cs s,
+  Inv s -> (forall c, In c cs -> staged (dy s c) = true) ->
+  Inv (stop_components s cs) /\ ext s (stop_components s cs) /\ core (stop_components s cs) = core s /\
+  (forall x, In x (finq s) -> In x (finq (stop_components s cs))).
+Proof.
+  induction cs as [|c cs IH]; intros s I Hs; cbn [stop_components fold_left].
+  - split; [exact I|split; [apply ext_refl|split; [reflexivity|auto]]].
+  - fold (stop_components (if alive (dy s c) && negb (finish_called (dy s c)) then finish s c Shutdown else s) cs).
+    destruct (alive (dy s c) && negb (finish_called (dy s c))) eqn:G.
+    + apply andb_true_iff in G as [G1 G2].
+      destruct (finish_ok s c Shutdown I (alive_ctl _ G1) (Hs c (or_introl eq_refl))) as [I' [X' [C' [_ [_ F']]]]].
+      destruct (IH (finish s c Shutdown) I') as [I2 [X2 [C2 F2]]].
+      { intros x Hx. apply (x_staged _ _ X'). apply Hs. right. exact Hx. }
+      split; [exact I2|split; [exact (ext_trans _ _ _ X' X2)|split; [congruence|auto]]].
+    + apply IH; [exact I|]. intros x Hx. apply Hs. right. exact Hx.
+Qed.
+
+Definition set_stop (s : state) (b : bool) : state :=
+  {| dy := dy s; done := done s; stop := b; cur := cur s; pmq := pmq s; finq := finq s;
+     running := running s; verdict := verdict s |}.
+
+Lemma kill_fold_ok : forall l s,
+  Inv s ->
+  let s' := fold_left (fun s c => if negb (finish_called (dy s c)) && alive (dy s c)
+                        then (if staged (dy s c) then finish s c Shutdown else fake_finish s c Shutdown)
+                        else s) l s in
+  Inv s' /\ ext s s' /\ done s' = done s /\ (forall x, In x (finq s) -> In x (finq s')).
+Proof.
+  induction l as [|c l IH]; intros s I; cbn [fold_left].
+  - split; [exact I|split; [apply ext_refl|split; [reflexivity|auto]]].
+  - destruct (negb (finish_called (dy s c)) && alive (dy s c)) eqn:G.
+    + apply andb_true_iff in G as [G1 G2]. destruct (staged (dy s c)) eqn:St.
+      * destruct (finish_ok s c Shutdown I (alive_ctl _ G2) St) as [I' [X' [C' [_ [_ F']]]]].
+        destruct (IH (finish s c Shutdown) I') as [I2 [X2 [D2 F2]]].
+        split; [exact I2|split; [exact (ext_trans _ _ _ X' X2)|split; [unfold core in C'; congruence|auto]]].
+      * destruct (fake_finish_ok s c Shutdown I St) as [I' [X' [C' [F' _]]]].
+        destruct (IH (fake_finish s c Shutdown) I') as [I2 [X2 [D2 F2]]].
+        split; [exact I2|split; [exact (ext_trans _ _ _ X' X2)|split; [unfold core in C'; congruence|]]].
+        intros x Hx. apply F2. rewrite F'. exact Hx.
+    + apply IH. exact I.
+Qed.
+
+Lemma kill_all_ok W s : Inv s ->
+  Inv (kill_all W s) /\ ext s (kill_all W s) /\ done (kill_all W s) = done s /\
+  (forall x, In x (finq s) -> In x (finq (kill_all W s))).
+Proof.
+  intros I. unfold kill_all.
+  assert (I0 : Inv (set_stop s true)) by exact I.
+  destruct (kill_fold_ok (nodes W) (set_stop s true) I0) as [A [B [C D]]].
+  split; [exact A|split; [|split; [exact C|exact D]]].
+  destruct B as [B1 B2 B3 B4 B5]. constructor; auto.
+Qed.
+
+Lemma fake_fold_ok : forall cs s,
+  Inv s ->
+  let s' := fold_left (fun s x => if negb (staged (dy s x)) && negb (finish_called (dy s x))
+                                  then fake_finish s x Shutdown else s) cs s in
+  Inv s' /\ ext s s' /\ core s' = core s /\ finq s' = finq s /\ (forall c, In c cs -> staged (dy s' c) = true).
+Proof.
+  induction cs as [|c cs IH]; intros s I; cbn [fold_left].
+  - split; [exact I|split; [apply ext_refl|split; [reflexivity|split; [reflexivity|intros c []]]]].
+  - destruct (negb (staged (dy s c)) && negb (finish_called (dy s c))) eqn:G.
+    + apply andb_true_iff in G as [G1 _]. apply negb_true_iff in G1.
+      destruct (fake_finish_ok s c Shutdown I G1) as [I' [X' [C' [F' [_ [Dc _]]]]]].
+      destruct (IH (fake_finish s c Shutdown) I') as [I2 [X2 [C2 [F2 S2]]]].
+      split; [exact I2|split; [exact (ext_trans _ _ _ X' X2)|split; [congruence|split; [congruence|]]]].
+      intros x [<-|Hx]; [|exact (S2 x Hx)]. apply (x_staged _ _ X2). rewrite Dc.
+      destruct (d_finish_frame Shutdown (d_stage (dy s c))) as [A _]. rewrite A. reflexivity.
+    + destruct (IH s I) as [I2 [X2 [C2 [F2 S2]]]].
+      split; [exact I2|split; [exact X2|split; [exact C2|split; [exact F2|]]]].
+      intros x [<-|Hx]; [|exact (S2 x Hx)]. apply (x_staged _ _ X2).
+      destruct (staged (dy s c)) eqn:St; [reflexivity|]. cbn in G.
+      destruct I as [I1 _]. destruct (l_unstaged _ (I1 c) St) as [_ [_ [_ Hf]]]. rewrite Hf in G. discriminate.
+Qed.
+
+(* ---- run counts are touched only by the scheduler pass and by restarts *)
+Lemma finish_runs s c f x : runs (dy (finish s c f) x) = runs (dy s x).
+Proof.
+  unfold finish. destruct (negb _ && negb _); cbn; unfold upd; destruct (Nat.eqb x c) eqn:E; try reflexivity;
+    apply Nat.eqb_eq in E; subst; destruct (d_finish_frame f (dy s c)) as [_ [A _]]; exact A.
+Qed.
+
+Lemma fake_finish_runs s c f x : runs (dy (fake_finish s c f) x) = runs (dy s x).
+Proof.
+  unfold fake_finish. rewrite finish_runs. cbn. unfold upd. destruct (Nat.eqb x c) eqn:E; [|reflexivity].
+  apply Nat.eqb_eq in E; subst. reflexivity.
+Qed.
+
+Lemma stop_components_runs : forall cs s x, runs (dy (stop_components s cs) x) = runs (dy s x).
+Proof.
+  induction cs as [|c cs IH]; intros s x; cbn [stop_components fold_left]; [reflexivity|].
+  fold (stop_components (if alive (dy s c) && negb (finish_called (dy s c)) then finish s c Shutdown else s) cs).
+  rewrite IH. destruct (alive (dy s c) && negb (finish_called (dy s c))); [apply finish_runs|reflexivity].
+Qed.
+
+Lemma kill_fold_runs : forall l s x,
+  runs (dy (fold_left (fun s c => if negb (finish_called (dy s c)) && alive (dy s c)
+                        then (if staged (dy s c) then finish s c Shutdown else fake_finish s c Shutdown)
+                        else s) l s) x) = runs (dy s x).
+Proof.
+  induction l as [|c l IH]; intros s x; cbn [fold_left]; [reflexivity|]. rewrite IH.
+  destruct (negb (finish_called (dy s c)) && alive (dy s c)); [|reflexivity].
+  destruct (staged (dy s c)); [apply finish_runs|apply fake_finish_runs].
+Qed.
+
+Lemma fake_fold_runs : forall cs s x,
+  runs (dy (fold_left (fun s x => if negb (staged (dy s x)) && negb (finish_called (dy s x))
+                                  then fake_finish s x Shutdown else s) cs s) x) = runs (dy s x).
+Proof.
+  induction cs as [|c cs IH]; intros s x; cbn [fold_left]; [reflexivity|]. rewrite IH.
+  destruct (negb (staged (dy s c)) && negb (finish_called (dy s c))); [apply fake_finish_runs|reflexivity].
+Qed.
+
+(* ------------------------------------------------------------------ every event preserves the invariant *)
+Section Steps.
+Variable W : list comp.
+Variable outcome : nat -> nat -> reason.
+
+Lemma Inv_sub s s' :
+  Inv s -> dy s' = dy s -> (forall x, In x (done s') -> In x (done s)) -> (forall x, In x (finq s') -> In x (finq s)) -> Inv s'.
+Proof.
+  intros [I1 [I2 I3]] Hd H1 H2. unfold Inv, pstate. rewrite Hd. split; [exact I1|split; intros x Hx; [apply I2|apply I3]; auto].
+Qed.
+
+Lemma ext_same_dy s s' : dy s' = dy s -> (forall x, In x (done s) -> In x (done s')) -> ext s s'.
+Proof. intros Hd H. constructor; rewrite ?Hd; auto. Qed.
+
+Lemma set_dy_ok s c d' :
+  Inv s -> linv d' ->
+  (forall g, ctl (dy s c) = Some g -> ctl d' = Some g) ->
+  (staged (dy s c) = true -> staged d' = true) ->
+  (finish_called (dy s c) = true -> finish_called d' = true) ->
+  runs (dy s c) <= runs d' ->
+  Inv (set_dy s c d') /\ ext s (set_dy s c d').
+Proof.
+  intros [I1 [I2 I3]] L H1 H2 H3 H4.
+  assert (X : ext s (set_dy s c d')).
+  { constructor; cbn; auto; intros x; unfold upd; destruct (Nat.eqb x c) eqn:E;
+      try (apply Nat.eqb_eq in E; subst x); auto. }
+  split; [|exact X]. split; [|split].
+  - intros x. cbn. unfold upd. destruct (Nat.eqb x c); [exact L|apply I1].
+  - intros x Hx. exact (is_fin_stable s _ x X (I2 x Hx)).
+  - intros x Hx. exact (is_fin_stable s _ x X (I3 x Hx)).
+Qed.
+
+Lemma add_finq_ok s c : Inv s -> is_fin (pstate s c) = true -> Inv (add_finq s c) /\ ext s (add_finq s c).
+Proof.
+  intros [I1 [I2 I3]] H. split; [|apply ext_same_dy; [reflexivity|auto]].
+  split; [exact I1|split; [exact I2|]]. intros x Hx. cbn in Hx. apply in_app_or in Hx as [Hx|[Hx|[]]].
+  - exact (I3 x Hx).
+  - subst x. exact H.
+Qed.
+
+Lemma exit_ok s c s' : Inv s -> exit_comp W outcome s c = Some s' ->
+  Inv s' /\ ext s s' /\ (forall x, runs (dy s' x) = runs (dy s x)).
+Proof.
+  intros I H. unfold exit_comp in H. pose proof I as [I1 [I2 I3]].
+  destruct (negb (c <? ncomp W) || negb (exit_enabled (dy s c))) eqn:G; [discriminate|].
+  apply orb_false_iff in G as [_ G]. apply negb_false_iff in G.
+  pose proof (I1 c) as L.
+  assert (Hctl : ctl (dy s c) = None).
+  { destruct (ctl (dy s c)) as [g|] eqn:E; [|reflexivity]. destruct (l_ctl _ L g E) as [_ [r Er]].
+    unfold exit_enabled in G. rewrite Er in G. discriminate. }
+  assert (Hst : staged (dy s c) = true).
+  { destruct (staged (dy s c)) eqn:E; [reflexivity|]. destruct (l_unstaged _ L E) as [He [_ [_ Hf]]].
+    unfold exit_enabled in G. rewrite He in G. apply (l_kill _ L) in G. congruence. }
+  remember (match e (dy s c) with Idle => Killed | _ => outcome c (Nat.pred (runs (dy s c))) end) as r.
+  assert (Runs : forall d', runs d' = runs (dy s c) -> forall x, runs (upd (dy s) c d' x) = runs (dy s x)).
+  { intros d' Hr x. unfold upd. destruct (Nat.eqb x c) eqn:E; [apply Nat.eqb_eq in E; subst; exact Hr|reflexivity]. }
+  destruct (finish_called (dy s c)) eqn:Fc.
+  - match type of H with context [set_dy s c ?D] => set (d' := D) in * end.
+    assert (L' : linv d').
+    { constructor; unfold d'; cbn.
+      - intros E. congruence.
+      - intros g _. split; [reflexivity|eauto].
+      - intros _ E. discriminate.
+      - intros _. reflexivity.
+      - intros E. discriminate.
+      - intros r0 _ E. discriminate. }
+    destruct (set_dy_ok s c d' I L') as [Ia Xa]; unfold d'; cbn; auto; try congruence.
+    destruct (pending (dy s c)) as [g|] eqn:Pd; inversion H; subst s'.
+    + destruct (add_finq_ok (set_dy s c d') c Ia) as [Ib Xb].
+      { unfold pstate. cbn. rewrite upd_same. apply is_fin_ctl. unfold d'. cbn. eauto. }
+      split; [exact Ib|split; [exact (ext_trans _ _ _ Xa Xb)|]]. intros x. cbn. apply Runs. reflexivity.
+    + split; [exact Ia|split; [exact Xa|]]. intros x. cbn. apply Runs. reflexivity.
+  - match type of H with context [set_dy s c ?D] => set (d' := D) in * end.
+    assert (Act : e (dy s c) = Active).
+    { unfold exit_enabled in G. destruct (e (dy s c)) eqn:E; [|reflexivity|discriminate].
+      apply (l_kill _ L) in G. congruence. }
+    assert (L' : linv d').
+    { constructor; unfold d'; cbn.
+      - intros E. congruence.
+      - intros g E. congruence.
+      - intros _ _. exact (l_active _ L Act).
+      - intros E. pose proof (l_kill _ L E). congruence.
+      - intros E. discriminate.
+      - intros r0 _ _. exact (l_active _ L Act). }
+    destruct (set_dy_ok s c d' I L') as [Ia Xa]; unfold d'; cbn; auto; try congruence.
+    inversion H; subst s'. split; [|split].
+    + apply (Inv_sub (set_dy s c d')); [exact Ia|reflexivity|auto|auto].
+    + apply (ext_trans _ _ _ Xa). apply ext_same_dy; [reflexivity|auto].
+    + intros x. cbn. apply Runs. reflexivity.
+Qed.
+
+Definition launch_free (s s' : state) : Prop := forall x, runs (dy s x) = 0 -> runs (dy s' x) = 0.
+
+Lemma deliver_pm_ok s c s' : Inv s -> deliver_pm W s c = Some s' -> Inv s' /\ ext s s' /\ launch_free s s'.
+Proof.
+  intros I H. unfold deliver_pm in H. destruct (negb (memn c (pmq s))); [discriminate|].
+  match type of H with context [dy ?S0 c] => set (s0 := S0) in * end.
+  assert (I0 : Inv s0) by (apply (Inv_sub s); auto).
+  assert (X0 : ext s s0) by (apply ext_same_dy; auto).
+  assert (Ds : dy s0 = dy s) by reflexivity. clearbody s0.
+  pose proof I0 as [I1 _]. pose proof (I1 c) as L.
+  destruct (finish_called (dy s0 c)) eqn:Fc.
+  { inversion H; subst. split; [exact I0|split; [exact X0|intros x Hx; rewrite Ds; exact Hx]]. }
+  destruct (e (dy s0 c)) as [| |r] eqn:Ee;
+    try (inversion H; subst; split; [exact I0|split; [exact X0|intros x Hx; rewrite Ds; exact Hx]]).
+  assert (Hctl : ctl (dy s0 c) = None) by (apply linv_ctl_none_of_not_fc; auto).
+  assert (Hst : staged (dy s0 c) = true) by (apply linv_staged_of_nonidle; [exact L|congruence]).
+  assert (Hrun : 0 < runs (dy s0 c)) by exact (l_exited _ L r Ee Fc).
+  destruct (restart_decision W c (dy s0 c) r) as [d'|] eqn:Rd.
+  - (* restarted *)
+    assert (Ed : exists a b, d' = {| staged := staged (dy s0 c); runs := S (runs (dy s0 c));
+                 finish_called := finish_called (dy s0 c); pending := pending (dy s0 c);
+                 kill_req := kill_req (dy s0 c); e := Active; ctl := ctl (dy s0 c);
+                 restarts := a; resub := b; shut := shut (dy s0 c) |}).
+    { unfold restart_decision, try_restart in Rd.
+      destruct (reason_eqb r SubmissionFailed); [destruct (resub (dy s0 c) <? 5); [|discriminate]|
+        destruct (mem r (restart_on (cmp W c))); [|discriminate]];
+      destruct (shut (dy s0 c)); try discriminate; destruct (max_r (cmp W c) <? S (restarts (dy s0 c))); try discriminate;
+      inversion Rd; eauto. }
+    destruct Ed as [a [b ->]].
+    match type of H with context [set_dy s0 c ?D] => set (d' := D) in * end.
+    assert (L' : linv d').
+    { constructor; unfold d'; cbn.
+      - intros E. congruence.
+      - intros g E. congruence.
+      - intros _ _. lia.
+      - intros E. exact (l_kill _ L E).
+      - intros _. lia.
+      - intros r0 E. discriminate. }
+    destruct (set_dy_ok s0 c d' I0 L') as [Ia Xa]; unfold d'; cbn; auto; try congruence.
+    inversion H; subst s'. split; [exact Ia|split; [exact (ext_trans _ _ _ X0 Xa)|]].
+    intros x Hx. cbn. unfold upd. destruct (Nat.eqb x c) eqn:E; [|rewrite Ds; exact Hx].
+    apply Nat.eqb_eq in E. subst x. rewrite <- Ds in Hx. lia.
+  - destruct (finish_ok s0 c (final_of_reason W c r) I0 Hctl Hst) as [Ia [Xa _]].
+    inversion H; subst s'. split; [exact Ia|split; [exact (ext_trans _ _ _ X0 Xa)|]].
+    intros x Hx. rewrite finish_runs, Ds. exact Hx.
+Qed.
+
+Lemma deliver_fin_ok s c s' : Inv s -> deliver_fin W s c = Some s' -> Inv s' /\ ext s s' /\ launch_free s s'.
+Proof.
+  intros I H. unfold deliver_fin in H. destruct (memn c (finq s)) eqn:M; [|discriminate]. cbn [negb] in H.
+  apply memn_In in M.
+  match type of H with context [is_failed (pstate ?S0 c)] => set (s0 := S0) in * end.
+  assert (I0 : Inv s0).
+  { apply (Inv_sub s); auto. intros x Hx. cbn in Hx. exact (In_remove1 _ _ _ Hx). }
+  assert (X0 : ext s s0) by (apply ext_same_dy; auto).
+  assert (Fc : is_fin (pstate s0 c) = true) by (destruct I as [_ [_ I3]]; exact (I3 c M)).
+  match type of H with Some {| dy := dy ?S1; done := _; stop := _; cur := _; pmq := _; finq := _; running := _; verdict := _ |} = _ =>
+    set (s1 := S1) in * end.
+  assert (K : Inv s1 /\ ext s0 s1 /\ (forall x, runs (dy s1 x) = runs (dy s0 x))).
+  { unfold s1. destruct (is_failed (pstate s0 c)).
+    - destruct (match cur s0 with Some i => i <? stage (cmp W c) | None => true end).
+      + destruct (kill_all_ok W s0 I0) as [A [B _]]. split; [exact A|split; [exact B|]].
+        intros x. unfold kill_all. rewrite kill_fold_runs. reflexivity.
+      + destruct (fake_fold_ok (stage_nodes W (stage (cmp W c))) s0 I0) as [A [B [_ [_ St]]]].
+        destruct (stop_components_ok (stage_nodes W (stage (cmp W c))) _ A St) as [A2 [B2 _]].
+        split; [exact A2|split; [exact (ext_trans _ _ _ B B2)|]].
+        intros x. rewrite stop_components_runs, fake_fold_runs. reflexivity.
+    - split; [exact I0|split; [apply ext_refl|reflexivity]]. }
+  destruct K as [I1 [X1 R1]]. inversion H; subst s'.
+  assert (X2 : ext s1 {| dy := dy s1; done := done s1 ++ [c]; stop := stop s1; cur := cur s1; pmq := pmq s1;
+                         finq := finq s1; running := running s1; verdict := verdict s1 |}).
+  { apply ext_same_dy; [reflexivity|]. intros x Hx. cbn. apply in_or_app. left. exact Hx. }
+  split; [|split; [exact (ext_trans _ _ _ X0 (ext_trans _ _ _ X1 X2))|]].
+  - destruct I1 as [J1 [J2 J3]]. split; [exact J1|split; [|exact J3]].
+    intros x Hx. cbn in Hx. apply in_app_or in Hx as [Hx|[Hx|[]]]; [exact (J2 x Hx)|].
+    subst x. exact (is_fin_stable s0 s1 c X1 Fc).
+  - intros x Hx. cbn. rewrite R1. exact Hx.
+Qed.
+
+Lemma end_stage_ok s i : Inv s -> stage_done W s i = true ->
+  Inv (end_stage W s i) /\ ext s (end_stage W s i) /\ launch_free s (end_stage W s i).
+Proof.
+  intros I Hd. unfold end_stage.
+  assert (St : forall c, In c (stage_nodes W i) -> staged (dy s c) = true).
+  { intros c Hc. unfold stage_done in Hd. rewrite forallb_forall in Hd. specialize (Hd c Hc). apply memn_In in Hd.
+    destruct I as [I1 [I2 _]]. specialize (I2 c Hd). unfold pstate in I2. apply is_fin_ctl in I2 as [f Hf].
+    destruct (l_ctl _ (I1 c) f Hf) as [_ [r Er]]. apply linv_staged_of_nonidle; [apply I1|congruence]. }
+  destruct (stop_components_ok (stage_nodes W i) s I St) as [A [B _]].
+  split; [apply (Inv_sub (stop_components s (stage_nodes W i))); auto|split].
+  - apply (ext_trans _ _ _ B). apply ext_same_dy; auto.
+  - intros x Hx. cbn. rewrite stop_components_runs. exact Hx.
+Qed.
+
+(* a scheduler pass is the only place where a component is launched for the first time *)
+Definition launch_guarded (s s' : state) : Prop :=
+  forall c, runs (dy s c) = 0 -> 0 < runs (dy s' c) ->
+    (forall p, In p (preds (cmp W c)) ->
+       (In p (done s) /\ is_fin (pstate s p) = true) \/
+       (is_subject W c p = true /\ 0 < runs (dy s p) /\ finish_called (dy s p) = false)) /\
+    shutdown_rule W s c = false.
+
+Lemma guard_to_launch_guarded s c : Inv s -> Guard W s c ->
+  (forall p, In p (preds (cmp W c)) ->
+       (In p (done s) /\ is_fin (pstate s p) = true) \/
+       (is_subject W c p = true /\ 0 < runs (dy s p) /\ finish_called (dy s p) = false)) /\
+  shutdown_rule W s c = false.
+Proof.
+  intros [I1 [I2 _]] [G1 G2]. split; [|exact G2]. intros p Hp. destruct (G1 p Hp) as [H|[A [B C]]].
+  - left. split; [exact H|exact (I2 p H)].
+  - right. split; [exact A|split; [exact (l_launched _ (I1 p) B C)|exact C]].
+Qed.
+
+Lemma launch_free_guarded s s' : launch_free s s' -> launch_guarded s s'.
+Proof. intros H c H0 H1. rewrite (H c H0) in H1. lia. Qed.
+
+Lemma tick_ok s s' : Inv s -> tick W true s = Some s' -> Inv s' /\ ext s s' /\ launch_guarded s s'.
+Proof.
+  intros I H. unfold tick in H. destruct (cur s) as [i|]; [|discriminate]. destruct (running s); [|discriminate].
+  inversion H; subst s'. destruct (stage_done W s i) eqn:Sd.
+  - destruct (end_stage_ok s i I Sd) as [A [B C]]. split; [exact A|split; [exact B|apply launch_free_guarded; exact C]].
+  - destruct (sched_pass_ok W s I) as [A [B [_ [_ [_ G]]]]]. split; [exact A|split; [exact B|]].
+    intros c H0 H1. destruct (G c H0 H1) as [_ [_ Gd]]. exact (guard_to_launch_guarded s c I Gd).
+Qed.
+
+Lemma start_ok s s' : Inv s -> start_stage W true s = Some s' -> Inv s' /\ ext s s' /\ launch_guarded s s'.
+Proof.
+  intros I H. unfold start_stage in H. destruct (running s); [discriminate|].
+  match type of H with (if ?b then _ else _) = _ => destruct b; [|discriminate] end.
+  match type of H with Some (sched_pass W true ?S0) = _ => set (s0 := S0) in * end.
+  assert (I0 : Inv s0) by (apply (Inv_sub s); auto).
+  assert (X0 : ext s s0) by (apply ext_same_dy; auto).
+  destruct (sched_pass_ok W s0 I0) as [A [B [_ [_ [_ G]]]]].
+  inversion H; subst s'. split; [exact A|split; [exact (ext_trans _ _ _ X0 B)|]].
+  intros c H0 H1. destruct (G c H0 H1) as [_ [_ Gd]]. exact (guard_to_launch_guarded s0 c I0 Gd).
+Qed.
+
+Lemma step_ok s ev s' : Inv s -> step W true outcome s ev = Some s' -> Inv s' /\ ext s s' /\ launch_guarded s s'.
+Proof.
+  intros I H. destruct ev as [| |c|c|c]; cbn [step] in H.
+  - exact (start_ok s s' I H).
+  - exact (tick_ok s s' I H).
+  - destruct (exit_ok s c s' I H) as [A [B C]]. split; [exact A|split; [exact B|]].
+    apply launch_free_guarded. intros x Hx. rewrite C. exact Hx.
+  - destruct (deliver_pm_ok s c s' I H) as [A [B C]]. split; [exact A|split; [exact B|apply launch_free_guarded; exact C]].
+  - destruct (deliver_fin_ok s c s' I H) as [A [B C]]. split; [exact A|split; [exact B|apply launch_free_guarded; exact C]].
+Qed.
+
+Lemma run_ok : forall evs s s', Inv s -> run W true outcome s evs = Some s' -> Inv s' /\ ext s s'.
+Proof.
+  induction evs as [|ev evs IH]; intros s s' I H; cbn [run] in H.
+  - inversion H; subst. split; [exact I|apply ext_refl].
+  - destruct (step W true outcome s ev) as [s1|] eqn:E; [|discriminate].
+    destruct (step_ok s ev s1 I E) as [A [B _]]. destruct (IH s1 s' A H) as [A' B'].
+    split; [exact A'|exact (ext_trans _ _ _ B B')].
+Qed.
+
+(* ---- consequences *)
+Lemma shutdown_rule_failed s c p :
+  In p (preds (cmp W c)) -> is_failed (pstate s p) = true -> shutdown_rule W s c = true.
+Proof.
+  intros Hp Hf. unfold shutdown_rule.
+  assert (E : existsb (fun p => is_failed (pstate s p)) (preds (cmp W c)) = true) by (apply existsb_exists; eauto).
+  rewrite E. reflexivity.
+Qed.
+
+Lemma shutdown_rule_shutdown s c p :
+  In p (preds (cmp W c)) -> is_aggregate (cmp W c) = false -> is_shutdown (pstate s p) = true ->
+  shutdown_rule W s c = true.
+Proof.
+  intros Hp Ha Hs. unfold shutdown_rule. rewrite Ha.
+  destruct (existsb (fun p => is_failed (pstate s p)) (preds (cmp W c))); [reflexivity|].
+  apply existsb_exists. eauto.
+Qed.
+
+(* once a producer is failed (or, for a non-aggregating consumer, shut down) the consumer is never launched *)
+Lemma blocked_forever : forall evs s s' c p,
+  Inv s -> run W true outcome s evs = Some s' ->
+  In p (preds (cmp W c)) ->
+  (ctl (dy s p) = Some Failed \/ (is_aggregate (cmp W c) = false /\ ctl (dy s p) = Some Shutdown)) ->
+  runs (dy s c) = 0 -> runs (dy s' c) = 0.
+Proof.
+  induction evs as [|ev evs IH]; intros s s' c p I H Hp Hb H0; cbn [run] in H.
+  - inversion H; subst. exact H0.
+  - destruct (step W true outcome s ev) as [s1|] eqn:E; [|discriminate].
+    destruct (step_ok s ev s1 I E) as [A [B G]].
+    assert (R1 : runs (dy s1 c) = 0).
+    { destruct (Nat.eq_dec (runs (dy s1 c)) 0) as [Z|Z]; [exact Z|]. exfalso.
+      destruct (G c H0 ltac:(lia)) as [_ Sr].
+      destruct Hb as [Hb|[Ha Hb]].
+      - rewrite (shutdown_rule_failed s c p Hp) in Sr; [discriminate|]. unfold pstate, cstate. rewrite Hb. reflexivity.
+      - rewrite (shutdown_rule_shutdown s c p Hp Ha) in Sr; [discriminate|]. unfold pstate, cstate. rewrite Hb. reflexivity. }
+    apply (IH s1 s' c p A H Hp); [|exact R1].
+    destruct Hb as [Hb|[Ha Hb]]; [left|right; split; [exact Ha|]]; exact (x_ctl _ _ B p _ Hb).
+Qed.
+End Steps.
